@@ -136,6 +136,15 @@ def equivalence_shapes():
     out.append(fmt_family("display_args_trailing_comma", args, IDS, lambda i: "m%d::S(%s, %s)" % (i, P % "i0", P % "i1"), "Display",
                           ["impl/src/fmt/mod.rs::FmtAttribute::parse", "impl/src/parsing.rs::Expr"],
                           opts=["let o = FormattingOptions::new();"]))
+    lone = ["#[derive(derive_more::Display)]\n#[display(\"<{_0}>\")]\npub struct S(pub Probe);",
+            "#[derive(derive_more::Display)]\n#[display(\"<{_0}>\",)]\npub struct S(pub Probe);"]
+    out.append(fmt_family("display_literal_trailing_comma", lone, IDS, lambda i: "m%d::S(%s)" % (i, P % "i0"), "Display",
+                          ["impl/src/fmt/mod.rs::FmtAttribute::parse"], opts=["let o = FormattingOptions::new();"]))
+    lone = ["#[derive(derive_more::Debug)]\npub enum E { #[debug(\"a{_0:?}\")] A(Probe), B { #[debug(\"{x}\")] x: Probe } }",
+            "#[derive(derive_more::Debug)]\npub enum E { #[debug(\"a{_0:?}\",)] A(Probe), B { #[debug(\"{x}\",)] x: Probe } }"]
+    out.append(fmt_family("debug_literal_trailing_comma", lone, IDS + "        let sel: bool = kani::any();\n",
+                          lambda i: "if sel { m%d::E::A(%s) } else { m%d::E::B { x: %s } }" % (i, P % "i0", i, P % "i1"), "Debug",
+                          ["impl/src/fmt/mod.rs::FmtAttribute::parse"], opts=["let o = FormattingOptions::new();"]))
     ren = ["#[derive(derive_more::Display)]\n#[display(rename_all = \"snake_case\")]\n#[display(bound(T: core::fmt::Display))]\npub enum E<T> { FirstOne, #[display(\"{_0}\")] Other(T) }",
            "#[derive(derive_more::Display)]\n#[display(bound(T: core::fmt::Display))]\n#[display(rename_all = \"snake_case\")]\npub enum E<T> { FirstOne, #[display(\"{_0}\")] Other(T) }"]
     out.append(fmt_family("display_rename_bound_order", ren, IDS + "        let sel: bool = kani::any();\n",
